@@ -6,7 +6,7 @@ import time
 SOLVERS = {
     "z3": lambda t: ["/usr/bin/z3", "-smt2", "-in", "-T:%d" % t],
     "z3-new": lambda t: ["z3-new", "-smt2", "-in", "-T:%d" % t],
-    "cvc5": lambda t: ["cvc5", "--lang", "smt2", "--produce-models", "--tlimit=%d" % (t * 1000)],
+    "cvc5": lambda t: ["cvc5", "--lang", "smt2", "--produce-models", "--strings-exp", "--tlimit=%d" % (t * 1000)],
 }
 
 
@@ -26,6 +26,8 @@ def run_one(name, script, timeout):
     model = {}
     for mm in re.finditer(r"\((\w+) (\(- (\d+)\)|-?\d+)\)", out):
         model[mm.group(1)] = -int(mm.group(3)) if mm.group(3) else int(mm.group(2))
+    for mm in re.finditer(r'\((\w+) "((?:[^"]|"")*)"\)', out):
+        model[mm.group(1)] = mm.group(2).replace('""', '"')
     return dict(solver=name, verdict=verdict, seconds=secs, model=model, raw=out[:300])
 
 
